@@ -2,7 +2,7 @@
 implementation-level oracle used to search for a concrete failing input."""
 import re
 
-from . import gen_kzg, gen_pc, gen_c16, gen_c13, gen_c08, gen_c09, gen_c15
+from . import gen_kzg, gen_pc, gen_c16, gen_c13, gen_c08, gen_c09, gen_c14, gen_c15
 from .gen_common import R_BLS381
 from .oracles import pc_honest, pc_mutations, pc_refusals, pc_hiding, pc_domain, pc_serialization
 
@@ -326,6 +326,68 @@ def oracle_c15(case, lo):
     return fails
 
 
+def oracle_c14(case, lo):
+    """C14 on library outputs only: time == space, verifier decisions, iterators == naive folding"""
+    fails = []
+    if case.kind != "c14":
+        return fails
+    sub = case.fields["sub"][0]
+    if sub == "stream":
+        D = case.fields["D"][0]
+        for name, v in lo.items():
+            val = v[1][0] if v[1] else ""
+            base = name.split(".")[0]
+            idx = name.split(".")[1:] 
+            poly = " ".join(case.fields.get("poly.%s" % idx[0], [])) if idx else ""
+            ctx = "(key max_degree %s, polynomial [%s], %d points%s)" % (D, poly[:200], len(case.fields["pts"]), (", buffer " + idx[1]) if len(idx) > 1 else "")
+            if base in ("tcommit", "scommit", "topen", "sopen", "tmopen", "smopen", "bopen") and val != "ok":
+                fails.append("streaming_kzg %s aborted on an in-domain request: %s %s" % (base, val, ctx))
+            elif base in ("commit_same", "open_same", "mopen_same") and val != "yes":
+                fails.append("space-efficient %s differs from the time-efficient one %s" % ({"commit_same": "commitment", "open_same": "evaluation/proof", "mopen_same": "multi-point proof"}[base], ctx))
+            elif base == "tv_is_eval" and val != "yes":
+                fails.append("time open returned a value that is not the evaluation %s" % ctx)
+            elif base == "smrem_evals" and val != "yes":
+                fails.append("space open_multi_points: remainder does not take the polynomial's values at the points %s" % ctx)
+            elif base in ("verify", "verify_svk", "vmp1", "vmp1_svk", "vmp", "vmp_svk") and val != "accept":
+                fails.append("verifier%s rejected the true evaluations: %s=%s %s" % (" (key derived from the stream key)" if base.endswith("svk") else "", base, val, ctx))
+            elif base in ("verify_bad", "verify_bad_svk", "vmp1_bad", "vmp_bad") and val != "reject":
+                fails.append("verifier accepted value+delta: %s=%s %s" % (base, val, ctx))
+            elif base == "svk_g0_same" and val != "yes":
+                fails.append("VerifierKey::from(&CommitterKeyStream) differs from the key's own generators")
+    else:
+        chs = case.fields.get("chs", [])
+        depth = len(chs)
+        n = len(case.fields["coeffs"])
+        tag = "(stream length %d, %d challenges)" % (n, depth)
+        if lib_s(lo, "tree") != "ok" or lib_s(lo, "stream") != "ok":
+            fails.append("folding iterator aborted %s: tree=%s stream=%s" % (tag, lib_s(lo, "tree"), lib_s(lo, "stream")))
+            return fails
+        levels = [int(x) for x in (lib_toks(lo, "tree_levels") or [])]
+        coeffs = lib_toks(lo, "tree_coeffs") or []
+        for i in range(1, depth + 1):
+            got = [c for (l, c) in zip(levels, coeffs) if l == i]
+            naive = lib_toks(lo, "naive.%d" % i) or []
+            m = -(-n // (1 << i))       # ceil(n / 2^i) coefficients; the all-padding blocks in front are zero and not enumerated
+            if got != naive[len(naive) - m:] or any(x != "0" for x in naive[:len(naive) - m]):
+                fails.append("FoldedPolynomialTree level %d differs from the naive folding %s" % (i, tag))
+        if any(l < 1 or l > depth for l in levels):
+            fails.append("FoldedPolynomialTree yields a level outside 1..depth %s" % tag)
+        want = (lib_toks(lo, "naive.%d" % depth) or []) if depth else case.fields["coeffs"]
+        if [str(int(x) % R_BLS381) for x in want] != (lib_toks(lo, "stream_coeffs") or []):
+            fails.append("FoldedPolynomialStream differs from the last naive folding %s" % tag)
+        if lib_s(lo, "stream_len_reported") != str(len(want)):
+            fails.append("FoldedPolynomialStream::len reports %s, the stream has %d elements %s" % (lib_s(lo, "stream_len_reported"), len(want), tag))
+        for k, what in (("commit_folding", "commit_folding aborted"), ("open_folding", "open_folding aborted")):
+            if k in lo and lib_s(lo, k) != "ok":
+                fails.append("%s %s: %s" % (what, tag, lib_s(lo, k)))
+        for k, what in (("cf_matches_time", "commit_folding differs from the time committer on the explicitly folded polynomials"),
+                        ("of_rem_evals", "open_folding remainders do not evaluate like the folded polynomials"),
+                        ("of_matches_time", "open_folding proof differs from the combination of time multi-point proofs")):
+            if k in lo and lib_s(lo, k) != "yes":
+                fails.append("%s %s" % (what, tag))
+    return fails
+
+
 def lib_toks(lo, name):
     v = lo.get(name)
     return v[1] if v else None
@@ -450,6 +512,12 @@ PROPS = {
         "flows": [(gen_c09.gen, "c09", 90, 900), (gen_pc.gen, "c17domain", 30, 300), (gen_c15.gen_setup, "c09", 16, 200)],
         "oracles": [oracle_c09, oracle_c15, pc_honest, pc_domain],
         "title": "Setup and trim",
+    },
+    "C14": {
+        "props_file": "props/C14.v",
+        "flows": [(gen_c14.gen, "c14", 60, 600), (gen_c14.gen_fold_grid, "c14", 60, 1040)],
+        "oracles": [oracle_c14],
+        "title": "Streaming KZG",
     },
     "C15": {
         "props_file": "props/C15.v",
